@@ -595,6 +595,9 @@ def check_calls(case, R):
     live = []
     try:
         for pos, (ti, kind) in enumerate(seq):
+            if ti < 0:
+                _other_reader_use(R, kind)
+                continue
             p, comments = CALL_POOL[ti]
             vals = tagged(len(p))
             vals["x"] = [swcio.f32(v + 10.0 * ti) for v in vals["x"]]
@@ -620,6 +623,29 @@ def check_calls(case, R):
                     "calls:input-modified")
     finally:
         shutil.rmtree(tmp, ignore_errors=True)
+
+
+OTHER_USES = ("extra-cols", "eswc", "malformed", "extra-cols-malformed")
+
+
+def _other_reader_use(R, what):
+    """Other uses of the same reader/writer in between two round trips (not judged here - C02 does - only that they leave no trace):
+    a file with extra columns, an ESWC file, a malformed file (rejected), a malformed file with extra columns."""
+    import io
+
+    from swcgeom.core import Tree
+    from swcgeom.core import swc_utils as su
+
+    if what == "extra-cols":
+        R.attempt(su.read_swc, io.StringIO("1 1 0 0 0 1 -1 7.5 3\n2 3 1 0 0 1 1 8.5 4\n"), extra_cols=["a", "b"])
+        R.attempt(Tree.from_swc, io.StringIO("1 1 0 0 0 1 -1 7.5\n2 3 1 0 0 1 1 8.5\n"), extra_cols=["a"])
+    elif what == "eswc":
+        R.attempt(Tree.from_eswc, io.StringIO("1 1 0 0 0 1 -1 1 2 3 4 5\n2 3 1 0 0 1 1 1 2 3 4 5\n"))
+    elif what == "malformed":
+        R.attempt(Tree.from_swc, io.StringIO("1 1 0 0 0 1 -1\n2 3 1 0 0 x 1\n3 3 2 0 0 1 2\n"))
+        R.attempt(su.read_swc, io.BytesIO(b"1 1 0 0 0 1 -1\n2 3 1 0 0 1\n"))
+    else:
+        R.attempt(su.read_swc, io.StringIO("1 1 0 0 0 1 -1 7.5\n2 3 1 0 0 1 1 oops\n"), extra_cols=["a"])
 
 
 # ------------------------------------------------------------------ spaces
@@ -715,6 +741,12 @@ def spaces(tier, seed):
     def gen_calls():
         for pair in itertools.product(elems, repeat=2):
             yield [list(e) for e in pair]
+        # another use of the reader (extra columns, ESWC, a rejected file) before / between round trips
+        for use in OTHER_USES:
+            for e in elems:
+                yield [[-1, use], list(e)]
+                for e2 in elems[:: (3 if quick else 1)]:
+                    yield [list(e2), [-1, use], list(e)]
         if not quick:
             for tri in itertools.product(elems, repeat=3):
                 yield [list(e) for e in tri]
@@ -739,7 +771,8 @@ def spaces(tier, seed):
                          "protocol": "write+read (warm), edit in place, write+read judged against the edited content"}),
         Space.of("calls", gen_calls, check_calls,
                  bounds={"pool": [[list(p), list(c)] for p, c in CALL_POOL], "source_kinds": list(CALL_KINDS),
-                         "sequences": "all ordered pairs" + ("" if quick else " and triples")}),
+                         "sequences": "all ordered pairs" + ("" if quick else " and triples") + "; every round trip preceded by, and every pair of round trips separated by, another use of the reader",
+                         "other_uses": list(OTHER_USES)}),
     ]
     for sp in out:
         sp.auto_retain = True
